@@ -122,6 +122,17 @@ func (c *Ctx) flowObligations(fr *Frame) {
 		}
 		c.oblige(newState(), fr, "flow", fl.Src, fl.Label, fr.fn.Pos(), mkBool(why == ""), fl.Props, src)
 	}
+	for gi, g := range v.specs.Guards {
+		if v.guardHome(g) != c.Key {
+			continue
+		}
+		bad := v.guardViolations(g)
+		src := "guarded " + g.Src
+		if len(bad) > 0 {
+			src += "  -- VIOLATED: " + strings.Join(bad, "; ")
+		}
+		c.oblige(newState(), fr, "guarded", shortOwner(g.Lock), fmt.Sprintf("lock-discipline-%d", gi+1), fr.fn.Pos(), mkBool(len(bad) == 0), g.Props, src)
+	}
 	var fields []string
 	for k := range v.specs.Secrets {
 		fields = append(fields, k)
@@ -524,4 +535,33 @@ func (c *Ctx) unmatchedAtCall(f *ssa.Function, fc *FuncContract) []string {
 		out = append(out, fmt.Sprintf("at call %s: no explored path reaches such a call (clause #%s is vacuous; contract out of date?)", cl.Site, cl.Label))
 	}
 	return out
+}
+
+// guardHome: the function under contract at which a lock-discipline obligation is reported (the first, in key order,
+// of the lock's package that is verified for one of the guard's properties)
+func (v *Verifier) guardHome(g *GuardSpec) string {
+	pkg := g.Lock
+	if i := strings.Index(pkg, "."); i >= 0 {
+		pkg = pkg[:i]
+	}
+	var keys []string
+	for k, fc := range v.specs.Funcs {
+		if fc.Trusted || fc.NoVerify || fc.Asset != nil || !strings.HasPrefix(k, pkg+".") {
+			continue
+		}
+		ok := false
+		for _, p := range g.Props {
+			if hasProp(fc.Props, p) {
+				ok = true
+			}
+		}
+		if ok {
+			keys = append(keys, k)
+		}
+	}
+	sort.Strings(keys)
+	if len(keys) == 0 {
+		return ""
+	}
+	return keys[0]
 }
